@@ -421,7 +421,7 @@ func (g *Gen) StmtExpr(want Kind) *Expr {
 	if g.R.Intn(100) < g.Cfg.ErrPct {
 		for try := 0; try < 4; try++ {
 			e := g.wild(d)
-			if res := g.M.TryExpr(e); !strings.HasPrefix(res.Unspec, "repeat") {
+			if res := g.M.TryExpr(e); !(res.Abort && strings.HasPrefix(res.Unspec, "repeat")) {
 				return e
 			}
 		}
@@ -617,7 +617,7 @@ func (g *Gen) Program() *Program {
 	}
 	n := 1 + r.Intn(max(1, g.Cfg.MaxStmts))
 	for i := 0; i < n; i++ {
-		if g.M.Dead() && r.Intn(3) > 0 {
+		if (g.M.Dead() || g.M.Tainted()) && r.Intn(3) > 0 {
 			break // a few statements after the failing one are still generated sometimes
 		}
 		p.Stmts = append(p.Stmts, g.Stmt())
